@@ -285,8 +285,9 @@ Definition bmon_step (focus : N) (q : bmon) (o : aop bapi) (outs : list out) : b
       if t <? now then inl q else
       let exact := match o with ALate _ => false | _ => bm_exact q end in
       let strict := match o with AAdvB _ => true | _ => false end in
-      (* a late firing processes, at one instant, everything that expired since the previous instant *)
-      match bmon_signals focus (fun ci T => let l := ref_purge (match o with ALate _ => now | _ => T - 1 end) (ref_nth (bm_refs q) ci) in
+      (* a late firing processes, at one instant, everything that expired since the previous instant (including the
+         previous instant itself when the last move was a "before" advance that left its timers pending) *)
+      match bmon_signals focus (fun ci T => let l := ref_purge (match o with ALate _ => if bm_pending q then now - 1 else now | _ => T - 1 end) (ref_nth (bm_refs q) ci) in
                                             expiry_trace (length l) T l)
                          (mkBm (bm_refs q) (bm_bs q) now exact) outs with
       | inr c => inr c
